@@ -39,10 +39,17 @@ impl Srv {
             loop {
                 if let Ok(Some(_)) = child.try_wait() { break; }
                 if std::net::TcpStream::connect(("127.0.0.1", port)).is_ok() {
-                    // the port may have been taken by another harness process in the meantime: then
-                    // our child fails to bind and exits while the connect reached the other server
-                    std::thread::sleep(Duration::from_millis(40));
-                    if let Ok(None) = child.try_wait() { return Srv { child, port, dir }; }
+                    // port race between harness processes: make sure it is OUR child that listens
+                    // (the VERIF PID hook answers the server's process id)
+                    let mut mine = false;
+                    if let Some(mut cl) = Client::connect(port) {
+                        let mut w = vec![];
+                        if let Some(p) = &o.password { V::cmd(&[b"AUTH", p.as_bytes()]).wire(&mut w); cl.send(&w); let _ = cl.read(3000); w.clear(); }
+                        V::cmd(&[b"VERIF", b"PID"]).wire(&mut w); cl.send(&w);
+                        if let Rd::Val(V::Int(pid)) = cl.read(3000) { mine = pid as u32 == child.id(); }
+                    }
+                    if mine { return Srv { child, port, dir }; }
+                    let _ = child.kill(); let _ = child.wait(); let _ = std::fs::remove_dir_all(&dir);
                     break;
                 }
                 if t0.elapsed() > Duration::from_secs(8) { let _ = child.kill(); let _ = child.wait(); break; }
